@@ -924,6 +924,14 @@ impl<const N: usize> SubscriptionsInner<N> {
 
     /// Remove entries that every subscription has already reported on.
     fn purge_reported_changes(&mut self) {
+        // A subscription that is being primed or reported on right now lives in its
+        // `ReportContext`, not in `subscriptions`, so its watermark is not visible here
+        // (`subscriptions_count` counts it, `subscriptions` does not hold it). Purging
+        // now could drop a change it has not reported yet: try again on the next round.
+        if self.subscriptions_count != self.subscriptions.len() {
+            return;
+        }
+
         if let Some(min_seen_attr_change_id) = self
             .subscriptions
             .iter()
